@@ -97,6 +97,7 @@ PROPS = {
             R("h23", "c10", "TestC10_RoundTrip", (30000, 8), (2000000, 16, 3000)),
             R("h23", "c10", "TestC10_AnnounceSend", (5000, 1), (100000, 2, 3000)),
             R("h23", "c10", "TestC10_Decode", (100000, 8), (3000000, 16, 3000)),
+            R("h23", "c10", "TestC10_P2PSender", (800, 2), (40000, 8, 3000)),
         ],
         "fuzz": [{"mod": "h23", "pkg": "c10", "target": "FuzzC10_UnmarshalCBOR", "secs": 300}],
     },
